@@ -98,7 +98,7 @@ def expected_channels(case, prev_full, k, m):
 
 def run(ctx):
     lines, pend = [], []
-    per = ctx.scale(70, 900)
+    per = ctx.scale(70, 2000)
     for fn in ROUTINES:
         R = ROUTINES[fn]
         det = fn in DET
@@ -141,6 +141,10 @@ def run(ctx):
                         ctx.fail(fn + ':bookkeeping', 'level %d works on %d nodes but the previous level has %d modules'
                                  % (lvl + 1, len(m), k), pc)
                         break
+                    if det:   # hypotheses of the theorems (`legal`): a real move to another module slot of this level
+                        ctx.check(int(d['ma']) != int(d['mb']), fn + ':legal', 'accepted move of node %d stays in module %d' % (d['u'], d['ma']), pc)
+                        ctx.check(0 <= int(d['u']) < k and 0 <= int(d['mb']) < k, fn + ':bookkeeping',
+                                  'node %d / target slot %d outside the %d nodes of level %d' % (d['u'], d['mb'], k, lvl + 1), pc)
                     exp = expected_channels(case, base, k, m)
                     for (kf, exp_c) in zip(CHAN_FIELDS[R.family], exp):
                         if kf is None:
